@@ -323,7 +323,7 @@ func (t *taintRun) returnsTainted(fn *ssa.Function) bool {
 	r := false
 	allInstrs(fn, func(i ssa.Instruction) {
 		if ret, ok := i.(*ssa.Return); ok {
-			for _, v := range ret.Results {
+			for _, v := range retVals(ret) {
 				if t.isT(v) {
 					r = true
 				}
@@ -338,7 +338,7 @@ func (t *taintRun) returnsHashed(fn *ssa.Function) bool {
 	allInstrs(fn, func(i ssa.Instruction) {
 		if ret, ok := i.(*ssa.Return); ok && len(ret.Results) > 0 {
 			n++
-			if !t.hashed[ret.Results[0]] {
+			if !t.hashed[retVals(ret)[0]] {
 				all = false
 			}
 		}
@@ -565,7 +565,7 @@ func c03Keypair(c *Ctx) {
 			allInstrs(fn, func(i ssa.Instruction) {
 				if ret, ok := i.(*ssa.Return); ok && knownTrue(okv, ret) {
 					hit = true
-					if len(ret.Results) < 1 || peel(ret.Results[0]) != ssa.Value(bmv) {
+					if len(ret.Results) < 1 || peel(retVals(ret)[0]) != ssa.Value(bmv) {
 						fail(ret, "on a cache hit something other than the cached bitmap is returned")
 					}
 				}
@@ -585,7 +585,7 @@ func c03Keypair(c *Ctx) {
 				if !ok || !c.fc.reachableFrom(fn, p, ret) {
 					return
 				}
-				if len(ret.Results) < 1 || !sameValue(ret.Results[0], stored) {
+				if len(ret.Results) < 1 || !sameValue(retVals(ret)[0], stored) {
 					fail(ret, "the bitmap stored in the cache is not the one returned: later hits would answer differently from this evaluation")
 				}
 			})
